@@ -73,3 +73,12 @@ Proof. exact valid_block_step. Qed.
 
 Theorem C07_valid_chain_invariant_init : forall batch gh c s0, init_store batch gh c = Ok s0 -> vgood gh s0.
 Proof. exact init_vgood. Qed.
+
+(* Tie by translation: the order in which Executer.process tests the fork-choice predicates (regenerated from the source on
+   every run, coq/Gen/ForkOrder.v) yields exactly the proved classification, and each branch performs the expected actions. *)
+From LE Require Import Gen.ForkOrder BFT.ForkOrderProofs.
+Theorem C07_process_dispatch_order : forall c last cur tl tc,
+  dispatch (map fst process_branches) c last cur tl tc = classify c last cur tl tc.
+Proof. exact process_dispatch_is_classify. Qed.
+Theorem C07_process_branch_actions : process_branches = expected_branches.
+Proof. exact process_branches_expected. Qed.
